@@ -310,16 +310,15 @@ where
     // absorbed by rounding when tol is below the rounding unit of the sum)
     let mut first_iteration = true;
     // The sums of squares of the iterations before the last one: with a tolerance below the
-    // rounding of the sum the converged iteration alternates between parameter vectors a
-    // rounding error apart and the same handful of sums come back for ever; a sum that is exactly
+    // rounding of the sum the converged iteration wanders between parameter vectors a
+    // rounding error apart and the same sums come back for ever; a sum that is exactly
     // one of the earlier ones means that this cycle has been entered
-    let mut earlier_sum_sq: [Option<N::RealField>; 16] = [None; 16];
+    let mut earlier_sum_sq: Vec<N::RealField> = Vec::new();
     while first_iteration
-        || ((last_sum_sq - sum_sq).abs() > tol && !earlier_sum_sq.contains(&Some(sum_sq)))
+        || ((last_sum_sq - sum_sq).abs() > tol && !earlier_sum_sq.contains(&sum_sq))
     {
         first_iteration = false;
-        earlier_sum_sq.rotate_right(1);
-        earlier_sum_sq[0] = Some(last_sum_sq);
+        earlier_sum_sq.push(last_sum_sq);
         last_sum_sq = sum_sq;
         // Get right side of iteration equation
         let diff = &ys - &evaluation;
@@ -456,16 +455,15 @@ where
     // absorbed by rounding when tol is below the rounding unit of the sum)
     let mut first_iteration = true;
     // The sums of squares of the iterations before the last one: with a tolerance below the
-    // rounding of the sum the converged iteration alternates between parameter vectors a
-    // rounding error apart and the same handful of sums come back for ever; a sum that is exactly
+    // rounding of the sum the converged iteration wanders between parameter vectors a
+    // rounding error apart and the same sums come back for ever; a sum that is exactly
     // one of the earlier ones means that this cycle has been entered
-    let mut earlier_sum_sq: [Option<N::RealField>; 16] = [None; 16];
+    let mut earlier_sum_sq: Vec<N::RealField> = Vec::new();
     while first_iteration
-        || ((last_sum_sq - sum_sq).abs() > tol && !earlier_sum_sq.contains(&Some(sum_sq)))
+        || ((last_sum_sq - sum_sq).abs() > tol && !earlier_sum_sq.contains(&sum_sq))
     {
         first_iteration = false;
-        earlier_sum_sq.rotate_right(1);
-        earlier_sum_sq[0] = Some(last_sum_sq);
+        earlier_sum_sq.push(last_sum_sq);
         last_sum_sq = sum_sq;
         // Get right side of iteration equation
         let diff = &ys - &evaluation;
